@@ -3,98 +3,33 @@ From Coq Require Import String Ascii List Bool Arith Lia.
 From KV Require Import Lib.Str Lib.StrOps Lib.ODict Gen.Tags Gen.Pipeline Model.Engine Model.EngineSM Model.EngineDomain
                        Model.EngineDomain16 Spec.RefExpand Spec.RefExpand16
                        Proofs.StrProofs Proofs.EngineStr Proofs.EngineRepl Proofs.EngineC17 Proofs.EnginePipe Proofs.EngineC16
-                       Proofs.EngineBlock Proofs.EngineTT.
+                       Proofs.EngineBlock Proofs.EngineTT Proofs.EngineTps Proofs.TagFree Proofs.EngineTrans.
 Import ListNotations.
 Open Scope string_scope.
 Open Scope list_scope.
 
-(* ---------------------------------------------------------------- lines without '<' *)
-Definition tagfree (s : string) : bool := no_char LT s.
-
-Lemma tagfree_findall s : tagfree s = true -> findall s = [].
-Proof.
-  induction s as [|c s IH]; [reflexivity|]. unfold tagfree. cbn [no_char]. intros H. apply andb_prop in H as [Hc Hs].
-  apply negb_true_iff in Hc. cbn [findall]. rewrite (match_tag_nolt c s Hc). apply IH. exact Hs.
-Qed.
-
-Lemma tagfree_hasTag s : tagfree s = true -> hasTag s = false.
-Proof. intros H. unfold hasTag. rewrite (tagfree_findall s H). reflexivity. Qed.
-
-Lemma tagfree_specific s t : tagfree s = true -> hasSpecificTag s t = false.
-Proof. intros H. unfold hasSpecificTag. rewrite (tagfree_hasTag s H). reflexivity. Qed.
-
-Definition starts_lt (p : string) : bool := match p with String c _ => Ascii.eqb c LT | EmptyString => false end.
-
-Lemma tagfree_contains p s : starts_lt p = true -> tagfree s = true -> contains p s = false.
-Proof.
-  intros Hp. destruct p as [|a p]; [discriminate|]. cbn [starts_lt] in Hp. apply Ascii.eqb_eq in Hp. subst a.
-  induction s as [|c s IH]; [reflexivity|]. unfold tagfree. cbn [no_char]. intros H. apply andb_prop in H as [Hc Hs].
-  apply negb_true_iff in Hc. cbn [contains prefixb]. rewrite Ascii.eqb_sym, Hc. cbn [andb orb]. apply IH. exact Hs.
-Qed.
-
-Lemma init_tags_start_lt : forallb (fun tv => starts_lt (fst tv)) init_state_tags = true.
-Proof. vm_compute. reflexivity. Qed.
-Lemma first_filter_start_lt : forallb starts_lt first_filter_tags = true.
-Proof. vm_compute. reflexivity. Qed.
-
-(* a tag-free line is inert for every stage whatever its tags are *)
-Lemma tagfree_stage_inert s st : tagfree s = true -> stage_inert s st = true.
-Proof.
-  intros H. destruct st as [[[[kind b] e] inner] coll]. unfold stage_inert.
-  destruct (String.eqb kind "Init").
-  - pose proof init_tags_start_lt as I. revert I. generalize init_state_tags. induction l as [|tv l IH]; [reflexivity|].
-    cbn [forallb]. intros I. apply andb_prop in I as [I1 I2]. rewrite (tagfree_contains _ s I1 H), (IH I2). reflexivity.
-  - destruct (String.eqb kind "Single"); rewrite ?(tagfree_specific s b H), ?(tagfree_specific s e H); reflexivity.
-Qed.
-
-Lemma tagfree_load_inert s : tagfree s = true -> (count_char LF s <=? 1)%nat = true -> load_inert s = true.
-Proof.
-  intros H Hc. unfold load_inert. rewrite !(tagfree_specific s _ H), Hc. cbn [negb andb]. rewrite andb_true_r.
-  pose proof first_filter_start_lt as I. revert I. generalize first_filter_tags. induction l as [|t l IH]; [reflexivity|].
-  cbn [forallb]. intros I. apply andb_prop in I as [I1 I2]. rewrite (tagfree_contains _ s I1 H), (IH I2). reflexivity.
-Qed.
-
-(* ---------------------------------------------------------------- expanded copies are tag-free *)
-Lemma lookup_some_ok n : forall tb, forallb (fun kv : string * string => no_lg (snd kv)) tb = true ->
-  existsb (String.eqb n) (map fst tb) = true -> exists v, lookup String.eqb n tb = Some v /\ no_lg v = true.
-Proof.
-  induction tb as [|[k v] tb IH]; cbn [forallb map existsb fst snd lookup]; intros H E; [discriminate|].
-  apply andb_prop in H as [Hv H]. destruct (String.eqb n k); [exists v; auto|]. apply IH; assumption.
-Qed.
-
-Lemma closed_copy_nolg tb : forall l, line_ok l = true -> forallb (closed_seg (map fst tb)) l = true ->
-  forallb (fun kv : string * string => no_lg (snd kv)) tb = true -> no_lg (render_body (map (subst16 tb) l)) = true.
-Proof.
-  induction l as [|g l IH]; intros Hl Hc Hv; [reflexivity|].
-  cbn [line_ok forallb] in Hl, Hc. apply andb_prop in Hl as [Hg Hl]. fold (line_ok l) in Hl. apply andb_prop in Hc as [Hcg Hc].
-  cbn [map render_body]. rewrite no_lg_app, (IH Hl Hc Hv), andb_true_r.
-  destruct g as [s|n [d|]]; cbn [closed_seg] in Hcg; [exact Hg|discriminate|].
-  cbn [subst16]. destruct (lookup_some_ok n tb Hv Hcg) as (v & Ev & Hvv). rewrite Ev. exact Hvv.
-Qed.
-
-Lemma copy_tagfree tb l : line_ok l = true -> forallb (closed_seg (map fst tb)) l = true ->
-  forallb (fun kv : string * string => no_lg (snd kv)) tb = true -> tagfree (render_line (map (subst16 tb) l)) = true.
-Proof.
-  intros Hl Hc Hv. unfold tagfree, render_line. rewrite no_char_app, (no_lg_no_lt _ (closed_copy_nolg tb l Hl Hc Hv)). reflexivity.
-Qed.
-
 (* ---------------------------------------------------------------- items and what they look like between the stages *)
 Definition item_tags (it : item16) : option (string * string) :=
-  match it with Text _ => None | Raw _ => None | Block k _ _ _ => Some (stage_tags k) | SigBlock _ _ _ => Some sig_tags end.
-Definition item_body (it : item16) : list uline :=
-  match it with Text _ => [] | Raw _ => [] | Block _ _ _ b => b | SigBlock _ _ b => b end.
+  match it with Text _ => None | Raw _ => None | Block k _ _ _ => Some (stage_tags k) | SigBlock _ _ _ => Some sig_tags
+              | TransBlock _ _ _ => Some pst_tags end.
+Definition item_lines (it : item16) : list string :=
+  match it with Text _ => [] | Raw _ => [] | Block _ _ _ b => map render_line b | SigBlock _ _ b => map render_line b
+              | TransBlock _ _ b => flat_map render_titem b end.
 Definition item_bl (it : item16) : string :=
   match it with Text _ => EmptyString | Raw _ => EmptyString | Block k ib _ _ => (ib ++ begin_line (block_word k))%string
-              | SigBlock ib _ _ => (ib ++ begin_line "PER_ACTION_SIGNATURE")%string end.
+              | SigBlock ib _ _ => (ib ++ begin_line "PER_ACTION_SIGNATURE")%string
+              | TransBlock ib _ _ => (ib ++ begin_line "PER_STATETRANSITION")%string end.
 Definition item_el (it : item16) : string :=
   match it with Text _ => EmptyString | Raw _ => EmptyString | Block k _ ie _ => (ie ++ end_line (block_word k))%string
-              | SigBlock _ ie _ => (ie ++ end_line "PER_ACTION_SIGNATURE")%string end.
+              | SigBlock _ ie _ => (ie ++ end_line "PER_ACTION_SIGNATURE")%string
+              | TransBlock _ ie _ => (ie ++ end_line "PER_STATETRANSITION")%string end.
 Definition item_inner (m : smodel) (it : item16) : list string -> option string -> option (list string) :=
   match it with
   | Text _ => fun _ _ => None
   | Raw _ => fun _ _ => None
   | Block k _ _ _ => inner_of_kind k (items_of (elements_of_model m) k)
   | SigBlock _ _ _ => inner_actionsigs (sm_actionsigs m)
+  | TransBlock _ _ _ => inner_tps (sm_tps m)
   end.
 
 Definition inb (y : string) (l : list string) : bool := existsb (String.eqb y) l.
@@ -107,19 +42,20 @@ Definition view (e : elements) (done : list string) (it : item16) : list string 
   end.
 
 Lemma render_block_shape it b e : item_tags it = Some (b, e) ->
-  render_item16 it = item_bl it :: map render_line (item_body it) ++ [item_el it].
+  render_item16 it = item_bl it :: item_lines it ++ [item_el it].
 Proof. destruct it; cbn [item_tags]; intros H; try discriminate; reflexivity. Qed.
 
 (* the block theorems, per item *)
 Lemma item_expands m it :
   item16_ok it = true -> item16_wf (elements_of_model m) it = true -> item_tags it <> None ->
-  item_inner m it (map render_line (item_body it)) None = Some (ref_item16 (elements_of_model m) it).
+  item_inner m it (item_lines it) None = Some (ref_item16 (elements_of_model m) it).
 Proof.
-  destruct it as [l|rs|k ib ie body|ib ie body]; cbn [item16_ok item16_wf item_tags item_inner item_body ref_item16]; intros Ho Hw Hn.
+  destruct it as [l|rs|k ib ie body|ib ie body|ib ie body]; cbn [item16_ok item16_wf item_tags item_inner item_lines ref_item16]; intros Ho Hw Hn.
   - contradiction.
   - contradiction.
   - apply andb_prop in Ho as [_ Ho]. apply inner_block; assumption.
   - apply andb_prop in Ho as [_ Ho]. cbn [elements_of_model el_sigs]. apply sig_block_is_ref; assumption.
+  - apply andb_prop in Ho as [_ Ho]. cbn [elements_of_model el_tps] in *. apply inner_tps_is_ref; assumption.
 Qed.
 
 Lemma keys_same k name i : map fst (table_of_kind k name i) = keys_of k.
@@ -147,9 +83,10 @@ Qed.
 Lemma expanded_tagfree e it : item16_ok it = true -> item16_wf e it = true -> item_tags it <> None ->
   forallb tagfree (ref_item16 e it) = true.
 Proof.
-  destruct it as [l|rs|k ib ie body|ib ie body]; cbn [item16_ok item16_wf item_tags ref_item16]; intros Ho Hw Hn; [contradiction|contradiction| |].
+  destruct it as [l|rs|k ib ie body|ib ie body|ib ie body]; cbn [item16_ok item16_wf item_tags ref_item16]; intros Ho Hw Hn; [contradiction|contradiction| | |].
   - apply andb_prop in Ho as [_ Ho]. unfold ref_block, block_wf in *. apply (ref_block_tagfree (table_of_kind k) (keys_of k) (keys_same k) body Ho _ 0 Hw).
   - apply andb_prop in Ho as [_ Ho]. unfold ref_block, block_wf in *. apply (ref_block_tagfree sig_table sig_keys sig_keys_same body Ho _ 0 Hw).
+  - apply andb_prop in Ho as [_ Ho]. apply ref_trans_tagfree; assumption.
 Qed.
 
 Lemma text_tagfree l : text_ok l = true -> tagfree (l ++ nl_str)%string = true /\ (count_char LF (l ++ nl_str)%string <=? 1)%nat = true.
@@ -163,7 +100,7 @@ Qed.
 Lemma plain_item_line it : item_tags it = None -> item16_ok it = true ->
   exists s, render_item16 it = [s] /\ (forall e, ref_item16 e it = [s]) /\ tagfree s = true /\ (count_char LF s <=? 1)%nat = true.
 Proof.
-  destruct it as [l|rs|k ib ie body|ib ie body]; cbn [item_tags item16_ok]; intros T H; try discriminate.
+  destruct it as [l|rs|k ib ie body|ib ie body|ib ie body]; cbn [item_tags item16_ok]; intros T H; try discriminate.
   - destruct (text_tagfree l H) as [A B]. exists (l ++ nl_str)%string. repeat split; auto.
   - apply andb_prop in H as [A B]. exists rs. repeat split; auto.
 Qed.
@@ -172,7 +109,7 @@ Qed.
 Lemma item_lines_ok it tags : item16_ok it = true -> item_tags it = Some tags ->
   block_lines_ok tags (item_bl it) (item_el it) = true.
 Proof.
-  destruct it as [l|rs|k ib ie body|ib ie body]; cbn [item16_ok item_tags item_bl item_el]; intros H T; inversion T; subst;
+  destruct it as [l|rs|k ib ie body|ib ie body|ib ie body]; cbn [item16_ok item_tags item_bl item_el]; intros H T; inversion T; subst;
     apply andb_prop in H as [H _]; exact H.
 Qed.
 
@@ -186,19 +123,20 @@ Qed.
 Lemma const_load tags bl el : block_lines_ok tags bl el = true -> load_inert bl = true /\ load_inert el = true.
 Proof. unfold block_lines_ok. intros H. apply andb_prop in H as [H L2]. apply andb_prop in H as [_ L1]. auto. Qed.
 
-Lemma body_lines_inert keys st : In st all_stages -> forall body, forallb (body_line_ok keys) body = true ->
-  forallb (fun s => stage_inert s st) (map render_line body) = true.
+Lemma item_lines_inert it : item16_ok it = true -> forallb inert (item_lines it) = true.
 Proof.
-  intros Hst. induction body as [|l body IH]; [reflexivity|]. cbn [forallb map]. intros H. apply andb_prop in H as [H1 H2].
-  rewrite (IH H2), andb_true_r. unfold body_line_ok in H1. repeat (apply andb_prop in H1 as [H1 ?K]).
-  unfold expand_inert in K. rewrite forallb_forall in K. apply K. exact Hst.
+  assert (B : forall keys body, forallb (body_line_ok keys) body = true -> forallb inert (map render_line body) = true).
+  { intros keys. induction body as [|l body IH]; [reflexivity|]. cbn [forallb map]. intros H. apply andb_prop in H as [H1 H2].
+    rewrite (IH H2), andb_true_r. unfold body_line_ok in H1. repeat (apply andb_prop in H1 as [H1 ?K]). unfold inert. rewrite K0, K. reflexivity. }
+  destruct it as [l|rs|k ib ie body|ib ie body|ib ie body]; cbn [item16_ok item_lines]; intros H; try reflexivity;
+    apply andb_prop in H as [_ H]; [exact (B _ _ H)|exact (B _ _ H)|exact (trans_lines_inert _ H)].
 Qed.
 
-Lemma item_body_ok it : item16_ok it = true -> exists keys, forallb (body_line_ok keys) (item_body it) = true.
-Proof. destruct it as [l|rs|k ib ie body|ib ie body]; cbn [item16_ok item_body]; intros H; [exists []; reflexivity|exists []; reflexivity| |]; apply andb_prop in H as [_ H]; eauto. Qed.
-
-Lemma forallb_impl {A} (f g : A -> bool) l : (forall x, f x = true -> g x = true) -> forallb f l = true -> forallb g l = true.
-Proof. intros H. induction l as [|x l IH]; [reflexivity|]. cbn [forallb]. intros K. apply andb_prop in K as [K1 K2]. rewrite (H x K1), (IH K2). reflexivity. Qed.
+Lemma lines_stage_inert st ls : In st all_stages -> forallb inert ls = true -> forallb (fun s => stage_inert s st) ls = true.
+Proof.
+  intros Hst. apply forallb_impl. intros s H. unfold inert in H. apply andb_prop in H as [_ H].
+  unfold expand_inert in H. rewrite forallb_forall in H. apply H. exact Hst.
+Qed.
 
 (* every line of an item, as it looks after the stages in [done], is inert for a stage that is not the item's own pending one *)
 Lemma view_lines_inert e done it st :
@@ -212,7 +150,7 @@ Proof.
       apply expanded_tagfree; [assumption|assumption|rewrite T; discriminate].
     + destruct Hown as [Hown|Hown]; [|discriminate].
       rewrite (render_block_shape it b e' T). destruct (const_facts _ _ _ st (item_lines_ok it _ Ho T) Hst Hown) as [Cb Ce]. cbn [forallb]. rewrite Cb. cbn [andb]. rewrite forallb_app'.
-      destruct (item_body_ok it Ho) as (keys & Hk). rewrite (body_lines_inert keys st Hst _ Hk). cbn [forallb andb]. rewrite Ce. reflexivity.
+      rewrite (lines_stage_inert st _ Hst (item_lines_inert it Ho)). cbn [forallb andb]. rewrite Ce. reflexivity.
   - destruct (plain_item_line it T Ho) as (s0 & R & _ & Tf & _). rewrite R. cbn [forallb]. rewrite (tagfree_stage_inert _ st Tf). reflexivity.
 Qed.
 
@@ -267,11 +205,10 @@ Section Steps.
           unfold view at 1 3. rewrite T, Hnd. unfold inb at 1. cbn [existsb]. rewrite String.eqb_refl. cbn [orb].
           rewrite (render_block_shape it b et T).
           destruct (block_lines_facts _ _ _ (item_lines_ok it _ Ho T)) as (C & C3 & C2 & C1 & C0). cbn [fst snd] in C, C3, C2, C1, C0.
-          destruct (item_body_ok it Ho) as (keys & Hk).
-          assert (Hnb : forallb (not_be b et) (map render_line (item_body it)) = true).
-          { apply (forallb_impl (fun s => stage_inert s st)); [|exact (body_lines_inert keys st Hst _ Hk)]. intros s Hs. exact Hs. }
+          assert (Hnb : forallb (not_be b et) (item_lines it) = true).
+          { apply (forallb_impl (fun s => stage_inert s st)); [|exact (lines_stage_inert st _ Hst (item_lines_inert it Ho))]. intros s Hs. exact Hs. }
           cbn [app]. rewrite <- app_assoc. cbn [app].
-          pose proof (pair_block b et f [] (item_bl it) (map render_line (item_body it)) (item_el it)
+          pose proof (pair_block b et f [] (item_bl it) (item_lines it) (item_el it)
                                  (flat_map (view e done) t') eq_refl Hnb C C3 C2 C1 C0) as PB.
           cbn [app] in PB. rewrite PB, Hf.
           rewrite (item_expands m it Ho Hw) by (rewrite T; discriminate). rewrite IH'. reflexivity.
@@ -305,8 +242,8 @@ Proof.
   repeat (destruct H as [H|H]; [subst st;
     first [ left; split; reflexivity
           | right; do 5 eexists; split; [reflexivity|]; split; [reflexivity|];
-            intros it tags T E; destruct it as [l|rs|k ib ie body|ib ie body]; cbn [item_tags] in T; [discriminate|discriminate| |];
-            inversion T; subst tags; clear T; [destruct k|]; cbn [fst snd stage_tags sig_tags] in *;
+            intros it tags T E; destruct it as [l|rs|k ib ie body|ib ie body|ib ie body]; cbn [item_tags] in T; [discriminate|discriminate| | |];
+            inversion T; subst tags; clear T; [destruct k| |]; cbn [fst snd stage_tags sig_tags pst_tags] in *;
             first [ split; [reflexivity|intros x; reflexivity] | vm_compute in E; discriminate E ] ] |]).
   contradiction.
 Qed.
@@ -350,7 +287,7 @@ Section Compose.
 
   Lemma all_done it tags : item_tags it = Some tags -> inb (fst tags) done_final = true.
   Proof.
-    destruct it as [l|rs|k ib ie body|ib ie body]; cbn [item_tags]; intros T; inversion T; subst; [destruct k|]; vm_compute; reflexivity.
+    destruct it as [l|rs|k ib ie body|ib ie body|ib ie body]; cbn [item_tags]; intros T; inversion T; subst; [destruct k| |]; vm_compute; reflexivity.
   Qed.
 
   Lemma view_final : flat_map (view e done_final) t = flat_map (ref_item16 e) t.
@@ -408,9 +345,7 @@ Section Whole.
     destruct (item_tags it) as [[b et]|] eqn:T.
     - rewrite (render_block_shape it b et T). destruct (const_load _ _ _ (item_lines_ok it _ Hi T)) as [Lb Le].
       cbn [forallb]. rewrite Lb. cbn [andb]. rewrite forallb_app'. cbn [forallb]. rewrite Le, !andb_true_r.
-      destruct (item_body_ok it Hi) as (keys & Hk). clear -Hk. induction (item_body it) as [|l body IHb]; [reflexivity|].
-      cbn [forallb map] in *. apply andb_prop in Hk as [H1 H2]. rewrite (IHb H2), andb_true_r.
-      unfold body_line_ok in H1. repeat (apply andb_prop in H1 as [H1 ?K]). exact K0.
+      generalize (item_lines_inert it Hi). apply forallb_impl. intros s0 K. unfold inert in K. apply andb_prop in K. tauto.
     - destruct (plain_item_line it T Hi) as (s0 & R & _ & Tf & Tc). rewrite R. cbn [forallb]. rewrite (tagfree_load_inert _ Tf Tc). reflexivity.
   Qed.
 
@@ -464,6 +399,6 @@ Theorem engine16_is_ref_table tt structs protos msgs m dict t :
   engine16 m dict t = Some (ref16_rows tt structs protos msgs t).
 Proof.
   intros Hm Hd Hg Hw. unfold wf16_rows, ref16_rows in *.
-  rewrite <- (Proofs.EngineTT.model_elements tt structs protos msgs m Hm) in *.
+  rewrite <- (Proofs.EngineTps.model_elements_full tt structs protos msgs m Hm) in *.
   apply engine16_is_ref; assumption.
 Qed.
